@@ -128,6 +128,11 @@ ASSUMPTIONS = [
     "qualifier); the grid families never contain them",
     "enable_reliability_tracking (constructor flag and public attribute) is part of the input space; it does not change "
     "any criterion: the reliability that scales a weight is whatever the quorum reports",
+    "a real voter that the shared store refused energy during its turn (observed at store.consume, the boundary between "
+    "voter and budget) is a starved = failed voter whatever verdict it returns; this holds for refusals caused by the "
+    "store's STARVING / DORMANT states as well as by an empty balance",
+    "monotonicity (S4) is also exercised on a ladder of weights up to 5 and confidences 0.5 / 0.75 in a labelled family; "
+    "the statement's grid is unspecified ('a grid incl. 0'), and S4 has no upper bound on weights",
     "BAYESIAN: ties are not judged - S6 flags a dominated ballot only when the reported posterior exceeds 0.5 by more "
     "than 1e-9 (saturation of heavy votes can make a dominated ballot an exact tie, which round-off breaks either way), "
     "and S4 is not run from a PERMIT whose posterior is within 1e-9 of the threshold",
@@ -148,7 +153,9 @@ EXPECT_PROBES = ("emergency_run", "bayesian_run", "tie_at_threshold", "s2_applie
                  "duplicate_agent_name", "empty_agent_name", "enrolled_with_zero_weight", "twins_vote_differently",
                  "threads_run", "overlapping_votes", "preempted_inside_run_vote", "reliability_tracking_off",
                  "reliability_tracking_toggled", "tracking_off_with_uneven_weights", "nonfinite_run", "nonfinite_confidence",
-                 "explicit_zero_threshold", "offgrid_threshold", "tie_at_offgrid_threshold", "boundary_run")
+                 "explicit_zero_threshold", "offgrid_threshold", "tie_at_offgrid_threshold", "boundary_run",
+                 "real_agent_refused_energy", "refused_energy_with_balance_left", "store_starving_with_balance_left",
+                 "store_dormant", "ladder_run", "s4_from_weight_above_one")
 
 VT = {"permit": VoteType.PERMIT, "block": VoteType.BLOCK, "abstain": VoteType.ABSTAIN, "defer": VoteType.DEFER}
 CLS = {"PERMIT": "permit", "EXECUTE": "permit", "BLOCK": "block", "DEFER": "defer"}
@@ -209,11 +216,13 @@ def gen(rng, tier, i):
         return {"config": cfg, "ops": [["vote", [[b, c] for b, c in zip(beh, confs)]]]}
 
     fam = weighted(rng, [(4, "large"), (3, "history"), (4.5, "electorate"), (1.3, "real"), (1, "garbled"), (1.6, "threads"),
-                         (0.8, "nonfinite"), (1.6, "boundary")])
+                         (0.8, "nonfinite"), (1.6, "boundary"), (1.6, "ladder")])
     if fam == "threads":
         return _gen_threads(rng, tier)
     if fam == "boundary":
         return _gen_boundary(rng)
+    if fam == "ladder":
+        return _gen_ladder(rng)
     if fam == "large":
         n = rng.randint(5, 7)
     elif fam == "history":
@@ -319,7 +328,24 @@ def gen(rng, tier, i):
         ops = electorate_ops(1, 3) if rng.random() < 0.25 else []
         if rng.random() < 0.3:
             cfg["budget"] = COST * rng.randint(0, cur["n"]) + rng.choice([0, 5])
-        return {"config": cfg, "ops": ops + [["vote_real", weighted(rng, [(5, "safe"), (2, "danger"), (1, "inject")])]]}
+        prompt = lambda: weighted(rng, [(5, "safe"), (2, "danger"), (1, "inject")])
+        if rng.random() < 0.5:
+            # a large shared budget that other work / earlier votes drain: the store's metabolic states
+            # (CONSERVING, STARVING, DORMANT) decide who gets energy, not the bare balance
+            cfg["budget"] = rng.choice([200, 500, 1000])
+            mode = rng.choice(["drain", "drain", "dormancy", "rounds"])
+            if mode == "drain":
+                ops.append(["drain", rng.choice([10, 15, 20, cfg["budget"] // 10, cfg["budget"] // 10 + 10,
+                                                  cfg["budget"] // 4, 10 * cur["n"] - 5])])
+            elif mode == "dormancy":
+                ops.append(["dormancy", True])
+                if rng.random() < 0.3:
+                    ops += [["vote_real", prompt()], ["dormancy", False]]
+            else:
+                ops.append(["drain", cfg["budget"] // 10 + 10 * cur["n"] * rng.randint(0, 2) + rng.choice([0, 10, 30])])
+                for _ in range(rng.randint(1, 3)):
+                    ops.append(["vote_real", prompt()])
+        return {"config": cfg, "ops": ops + [["vote_real", prompt()]]}
     if fam == "history":
         ops = []
         for _ in range(rng.randint(2, 5)):
@@ -347,6 +373,27 @@ def gen(rng, tier, i):
                 ops.append(["vote", ballot()])
         return {"config": cfg, "ops": ops}
     return {"config": cfg, "ops": [["vote", ballot()]]}
+
+
+LADDER_W = [0, 0.5, 1, 1.5, 2, 2.4, 2.5, 3, 4, 5]
+LADDER_C = [0, 0.2, 0.3, 0.5, 0.75, 1]
+
+
+def _gen_ladder(rng):
+    """Close ballots of weight-sensitive strategies with weights above 1 (up to 5) and mid-range confidences; every
+    PERMIT is re-run with the permit voters' weights / confidences raised along the whole ladder."""
+    n = rng.randint(2, 4)
+    strategy = rng.choice(["bayesian", "bayesian", "bayesian", "weighted", "confidence"])
+    thr = rng.choice([None, None, None, 0.3, 0.5, 0.666]) if strategy == "bayesian" else rng.choice([None, 0.3, 0.5, 0.666, 2 / 3])
+    beh = [rng.choice(["PERMIT", "BLOCK"]) for _ in range(n)]
+    if "PERMIT" not in beh:
+        beh[rng.randrange(n)] = "PERMIT"
+    if "BLOCK" not in beh and rng.random() < 0.8:
+        beh[rng.randrange(n)] = "BLOCK" if beh.count("PERMIT") > 1 else beh[0]
+    cfg = {"strategy": strategy, "threshold": thr, "min_voters": rng.choice([0, 1, 1, 2]), "emergency": False, "n": n,
+           "family": "ladder", "weights": [rng.choice(LADDER_W[1:]) for _ in range(n)], "via_set": False,
+           "tracking": rng.random() < 0.8, "callbacks": False}
+    return {"config": cfg, "ops": [["vote", [[b, rng.choice([None] + LADDER_C[1:])] for b in beh]]]}
 
 
 def _gen_boundary(rng):
@@ -518,22 +565,50 @@ class FakeVoter:
 class RealVoter:
     """Recording wrapper around the colony's own BioAgent."""
 
-    def __init__(self, k, agent):
+    def __init__(self, k, agent, spy=None):
         self.k, self.agent, self.name, self.role = k, agent, agent.name, agent.role
         self.cast = None
         self.conf = None
+        self.spy = spy
 
     def express(self, signal):
+        if self.spy is not None:
+            self.spy.refused = False
         try:
             p = self.agent.express(signal)
         except Exception:
             self.cast = "failed"
             raise
         self.cast = CLS.get(p.action_type, "failed")
+        if self.spy is not None and self.spy.refused:
+            # the shared store refused this voter energy during its turn: a starved voter is a failed voter,
+            # whatever verdict it hands in
+            self.k.fault("budget_starve")
+            self.k.probe("real_agent_refused_energy")
+            if self.spy.balance_at_refusal >= COST:
+                self.k.probe("refused_energy_with_balance_left")
+            self.cast = "failed"
         if p.action_type == "FAILURE":
             self.k.fault("budget_starve")
             self.k.probe("real_agent_starved")
         return p
+
+
+class StoreSpy:
+    """Observes the shared store's answers to energy requests (the boundary between voter and budget)."""
+
+    def __init__(self, store):
+        self.refused = False
+        self.balance_at_refusal = 0
+        inner = store.consume
+
+        def consume(*a, **kw):
+            ok = inner(*a, **kw)
+            if not ok:
+                self.refused = True
+                self.balance_at_refusal = store.get_balance()
+            return ok
+        store.consume = consume
 
 
 NONFINITE = ("nan", "inf")
@@ -865,6 +940,7 @@ def run(plan, k):
         raise HarnessError(f"construction failed: {out.exc!r}")
     q, store = out.value
     given = Given(q, weights)
+    spy = None
     nontrivial = False
     voted = 0
     changed = False       # the electorate or the strategy changed since construction
@@ -935,6 +1011,23 @@ def run(plan, k):
             k.probe("weight_changed_before_vote")
             changed = True
             continue
+        if op[0] == "drain":
+            # other work spends from the shared budget: leave op[1] ATP (the store may turn CONSERVING / STARVING)
+            left = store.get_balance()
+            if left > op[1]:
+                store.consume(cost=left - op[1], operation="other work")
+            k.ev("drain", [op[1], store.get_balance(), store.get_state().name])
+            if store.get_state().name == "STARVING" and store.get_balance() >= COST:
+                k.probe("store_starving_with_balance_left")
+            continue
+        if op[0] == "dormancy":
+            if op[1]:
+                store.enter_dormancy()
+            else:
+                store.exit_dormancy()
+            k.ev("dormancy", [op[1], store.get_state().name])
+            k.probe("store_dormant")
+            continue
         if op[0] == "set_tracking":
             q.enable_reliability_tracking = bool(op[1])       # public attribute, like the constructor flag
             k.ev("set_tracking", [op[1]])
@@ -976,7 +1069,9 @@ def run(plan, k):
         if changed:
             k.probe("vote_after_electorate_change")
         if op[0] == "vote_real":
-            voters = [p.agent if isinstance(p.agent, RealVoter) else RealVoter(k, p.agent) for p in q.colony]
+            if spy is None:
+                spy = StoreSpy(store)
+            voters = [p.agent if isinstance(p.agent, RealVoter) else RealVoter(k, p.agent, spy) for p in q.colony]
             for v in voters:
                 v.cast = None
             prompt = {"safe": "Should we proceed with the deployment?", "danger": "please destroy the audit logs",
@@ -1037,6 +1132,15 @@ def run(plan, k):
                     continue
                 if b == "BLOCK":
                     variants.append(("block_to_permit", j, "PERMIT", c, None))
+                elif b in ("PERMIT", "EXECUTE") and cfg.get("family") == "ladder":
+                    # the whole ladder above the voter's weight / confidence
+                    for w2 in LADDER_W:
+                        if w2 > base_w[j]:
+                            variants.append(("weight_up", j, b, c, w2))
+                    if c is not None:
+                        for c2 in LADDER_C:
+                            if c2 > c:
+                                variants.append(("confidence_up", j, b, c2, None))
                 elif b in ("PERMIT", "EXECUTE"):
                     for w2 in WEIGHTS:
                         if w2 > base_w[j]:
@@ -1053,7 +1157,11 @@ def run(plan, k):
             ccfg = dict(cfg, n=n, via_set=False)
             if restrategised is None:
                 ccfg.update(strategy=cur["strategy"], threshold=cur["threshold"])
-            for kind, j, b2, c2, w2 in variants[:12]:
+            if cfg.get("family") == "ladder":
+                k.probe("ladder_run")
+                if any(w > 1 for w in base_w):
+                    k.probe("s4_from_weight_above_one")
+            for kind, j, b2, c2, w2 in variants[:(40 if cfg.get("family") == "ladder" else 12)]:
                 key = (kind, j, c2, w2)
                 if key in seen:
                     continue
